@@ -34,9 +34,15 @@
              xarg = (0 pynum) | (1 xfloat)
    OUTPUT  (snapshot events res)      of that last call; res = (0) returned | (1 kind),
                                       kind = 0 ValueError | 1 TypeError | 2 OverflowError
+   CASE    (4 ctor_args (op1 op2 ...))   as CASE 1, but ramp() runs in BINARY64 (Host/DCMotorFloat.v: mstep_fl); every
+                                      rational of the output is then the exact value of the float CPython holds
+                                      (arguments must be exact values of binary64 numbers): compared exactly
+   OUTPUT  as CASE 1
+   CASE    (5 start target)           the 20 raw arguments ramp() hands to set_speed (before the clamp), binary64
+   OUTPUT  (q1 ... q20)
    An undecodable case answers (2). *)
 From Coq Require Import ZArith QArith List Bool.
-From RV Require Import Base.Wire Base.NumM Base.XFloat Host.DCMotor Host.ActuatorsX.
+From RV Require Import Base.Wire Base.NumM Base.XFloat Host.DCMotor Host.ActuatorsX Host.DCMotorFloat.
 Import ListNotations.
 Open Scope Z_scope.
 
@@ -84,26 +90,26 @@ Definition wmret (r : mret) : wv :=
   | MMode md => WL [WI 3; wmode md]
   end.
 
-Fixpoint motor_steps (m : motor) (ops : list wv) : option (list wv) :=
+Fixpoint motor_steps (stepf : motor -> mop -> motor * list mev * result mret) (m : motor) (ops : list wv) : option (list wv) :=
   match ops with
   | [] => Some []
   | o :: r =>
       match un_mop o with
       | None => None
       | Some op =>
-          let '(m', evs, res) := mstep m op in
+          let '(m', evs, res) := stepf m op in
           let head := match res with
                       | Ok ret => WL [WI 0; wmret ret; wmotor m'; WL (map wmev evs)]
                       | Raised k => WL [WI 1; wexn k; wmotor m'; WL (map wmev evs)]
                       end in
-          match motor_steps m' r with
+          match motor_steps stepf m' r with
           | Some tl => Some (head :: tl)
           | None => None
           end
       end
   end.
 
-Definition run_motor (args : wv) (ops : list wv) : wv :=
+Definition run_motor (stepf : motor -> mop -> motor * list mev * result mret) (args : wv) (ops : list wv) : wv :=
   match args with
   | WL [a; b; c] =>
       match un_pynum a, un_pynum b, un_pynum c with
@@ -111,7 +117,7 @@ Definition run_motor (args : wv) (ops : list wv) : wv :=
           match motor_ctor a' b' c' with
           | inr k => WL [WL [WI 1; wexn k]]
           | inl m =>
-              match motor_steps m ops with
+              match motor_steps stepf m ops with
               | Some l => WL (WL [WI 0; wmotor m] :: l)
               | None => wbad
               end
@@ -183,7 +189,13 @@ Definition run_x (args : wv) (ops : list wv) (last : wv) : wv :=
 
 Definition run (v : wv) : wv :=
   match v with
-  | WL [WI 1; args; WL ops] => run_motor args ops
+  | WL [WI 1; args; WL ops] => run_motor mstep args ops
+  | WL [WI 4; args; WL ops] => run_motor mstep_fl args ops
+  | WL [WI 5; a; b] =>
+      match un_q a, un_q b with
+      | Some start, Some target => WL (map wqr (ramp_raws_fl start target))
+      | _, _ => wbad
+      end
   | WL [WI 2; x] =>
       match un_xfloat x with
       | Some x' => match xclamp x' with Some y => WL [WI 0; wxfloat y] | None => WL [WI 1; WI 0] end
